@@ -82,6 +82,12 @@ class Closure:
         self.name, self.caps = name, caps
 
 
+class FnItem:
+    """a function item used as a value (e.g. `.map(Arc::clone)`)"""
+    def __init__(self, name): self.name = name
+    def __repr__(self): return 'FnItem(%s)' % self.name
+
+
 class Inline:
     def __init__(self, func, args, post=None, cont=None):
         self.func, self.args, self.post = func, args, post     # post: name of a registered post-processor applied to the return value
@@ -402,6 +408,8 @@ class Exec:
             if f is not None: return self.run_const(f)
         if c.startswith('"'):
             return StrConst(c)
+        if c.startswith('fnitem '):
+            return FnItem(c[7:].strip())
         m = re.match(r'(?:.*::)?([A-Z][A-Z0-9_]*)$', c)
         if m:
             v = self.source_const(m.group(1))
@@ -601,6 +609,19 @@ class Exec:
             if h is not None: return h
             return vals
         if k == 'closure':
+            # `-Zunpretty=mir` prints one operand per captured *variable* although disjoint field captures are separate operands:
+            # the complete list comes from the stable-mir dump (same body, same local numbering) when the module carries it
+            m = re.search(r'closure@([^}]*)\}', rv[1])
+            full = None
+            for mod in self.modules:
+                full = getattr(mod, 'closure_ops', {}).get(m.group(1)) if m else None
+                if full is not None: break
+            if full is not None and len(full) != len(rv[2]):
+                if rv[2] and M.parse_operand(full[0]) != rv[2][0][1]:
+                    raise Unsupported('closure aggregate: the two MIR printers disagree on the first captured operand')
+                return Closure(rv[1], [self.operand(fr, M.parse_operand(o)) for o in full])
+            if full is None and any('closure_ops' in mod.__dict__ for mod in self.modules) is False and rv[2]:
+                pass
             return Closure(rv[1], [self.operand(fr, o) for _, o in rv[2]])
         if k == 'cast':
             v = self.operand(fr, rv[1])
